@@ -436,6 +436,31 @@ def check_zero_width(zi, buf):
     return []
 
 
+_BIG = {"__pow10__": 5000}
+PARAM_CASES = ([("array.too-few", el, ln, n) for el in ("SINT", "DINT", "REAL", "STRING") for ln in (1, 2, 255, 65536, 2 ** 31, 2 ** 64, _BIG) for n in (0, 1, 3) if n < (ln if isinstance(ln, int) else 9)]
+               + [("array.too-few.length-arg", el, ln, n) for el in ("SINT", "DINT") for ln in (2, 65536, 2 ** 64, _BIG) for n in (0, 1)]
+               + [("stringn.char-size", None, cs, 0) for cs in (0, 3, 5, 8, -1, 256, 65536, 2 ** 64, _BIG, None, "1", "utf-8")])
+
+
+def check_param_case(ci):
+    from pycomm3.exceptions import DataError as _DE
+    from pycomm3 import cip
+    kind, el, par, n = PARAM_CASES[ci]
+    par_v = _materialise(None, par) if isinstance(par, dict) else par
+    try:
+        if kind == "stringn.char-size":
+            out = cip.STRINGN.encode("abc", par_v)
+        else:
+            elt = getattr(cip, el)
+            vals = (["x"] if el == "STRING" else [1]) * n
+            out = cip.Array(par_v, elt).encode(vals) if kind == "array.too-few" else cip.Array(None, elt).encode(vals, par_v)
+    except _DE:
+        return []
+    except Exception as e:
+        return [Disc(f"encode.foreign.{type(e).__name__}.{kind}", f"{kind} element={el} parameter={_r(par_v)[:60]} values={n}: {e!r}"[:500])]
+    return [Disc(f"silent.encode.{kind}", f"{kind} element={el} parameter={_r(par_v)[:60]} with {n} values was encoded to {out[:40]!r}")]
+
+
 def plan(tier):
     jobs = []
     n = 16 if tier == "quick" else 64
@@ -508,6 +533,12 @@ def run_job(ctx, job):
                             ctx.case(("cont", name, str(ln), cont, pos, t["k"]), True, ["encode-bad", "bad.container"])
                             for d in discs:
                                 ctx.violation(d, "encode", {"t": t, "v": v if not isinstance(v, (bytes, bytearray, tuple)) else list(v), "label": f"array.el.range.{cont}"})
+        # "too few elements for a fixed array" for every size class of the fixed length (also lengths no sequence can reach and lengths
+        # whose decimal form Python refuses to print), and STRINGN character sizes the type does not have
+        for ci in range(len(PARAM_CASES)):
+            ctx.case(("param", ci), True, ["encode-bad", "bad.param"])
+            for d in check_param_case(ci):
+                ctx.violation(d, "param", {"i": ci})
     elif part == "unbound":
         for name in ["SINT", "INT", "DINT", "LINT", "REAL", "LREAL", "BYTE", "WORD", "DWORD", "LWORD", "BOOL"]:
             el = T(name)
@@ -647,6 +678,8 @@ def split_fuzz_input(data):
 def replay(ctx, kind, case):
     if kind == "zerowidth":
         return check_zero_width(case["i"], case["buf"])
+    if kind == "param":
+        return check_param_case(case["i"])
     if kind == "encode":
         return encode_blamed(case["t"], case["v"], case["label"])
     if kind == "decode":
